@@ -207,6 +207,20 @@ struct F {
             T outw[9];
             for (int i = 0; i < N; i++) outw[i] = PhQ::Convert(sv[i], PhQ::Standard<U>, u2);
             cx.cmp("Value(u2)", n2, q.Value(u2), outw, v);
+            {
+              // two results alive at once, bound the way a caller may bind them: the first must not change when the second is asked for
+              const auto& first = q.Value(u2);
+              T f0[9], f1[9];
+              vf::comps(first, f0);
+              const auto& second = q.Value(ens[(ti + 1) % ens.size()].value);
+              (void)second;
+              vf::comps(first, f1);
+              for (int i = 0; i < N; i++)
+                if (!vf::same_bits(f0[i], f1[i])) {
+                  cx.bad("Value(u2) held by reference changes when Value(u3) is called", n2, i, f1[i], f0[i], v);
+                  break;
+                }
+            }
             const std::string ab(PhQ::Abbreviation(u2));
             cx.cmpnums("Print(u2)", n2, numbers_in<T>(q.Print(u2), ab), outw, v);
             cx.cmpnums("JSON(u2)", n2, numbers_in<T>(q.JSON(u2), ab), outw, v);
